@@ -136,7 +136,10 @@ class FixedMatrix
 
     const FixedArray<T> * getitem(int index) const
     {
-        return new FixedArray<T>(const_cast<T *>(&_ptr[convert_index(index)*_rowStride*_cols*_colStride]),_cols,_colStride);
+        //  The row view holds a copy of this matrix object (which shares, and
+        // reference-counts, the storage) as its handle, so that views derived
+        // from the row keep the storage alive as well.
+        return new FixedArray<T>(const_cast<T *>(&_ptr[convert_index(index)*_rowStride*_cols*_colStride]),_cols,_colStride,boost::any(*this));
     }
 
     FixedMatrix  getslice(PyObject *index) const
